@@ -56,7 +56,7 @@ def mandatory(tier):
         for g in ("same", "other", "same_domain"):
             out.append(f"points/{a}->{b}/{g}")
             out.append(f"vectors/{a}->{b}/{g}")
-    out += ["lattice/True", "lattice/False", "identity_resample", "anchors", "coords_options", "cube"]
+    out += ["lattice/True", "lattice/False", "identity_resample", "anchors", "coords_options", "cube", "cube/helpers", "int_input"]
     out += [f"image_sample_sublattice/{a}->{b}" for a in (True, False) for b in (True, False)]
     return out
 
@@ -221,6 +221,22 @@ def case(ctx, i):
                 w = g1.transform_vectors(vt, ax[a], ax[b], to_grid=g_to)
                 ctx.bucket(f"vectors/{a}->{b}/{which}")
                 ctx.close("vectors_vs_oracle", w, vref, vtol, **info)
+            if a != b:
+                # integer-typed input (index offsets, Python int lists) is converted to floating point first
+                with ctx.guard("Grid.transform_vectors(int)", key="exc/int_input", **info):
+                    vi = rng.integers(-3, 4, size=(4, D))
+                    viref = r1.vectors(vi.astype(np.float64), a, b, r_to)
+                    vitol = r1.tol(np.abs(vi).astype(np.float64), a, b, r_to, eps=eps, k=K, vectors=True)
+                    for form, arg in (("int64", torch.tensor(vi, dtype=torch.int64)), ("int32", torch.tensor(vi, dtype=torch.int32)), ("list", vi.tolist())):
+                        wi = g1.transform_vectors(arg, ax[a], ax[b], to_grid=g_to)
+                        ctx.true("integer_vectors_give_floating_point_result", torch.is_floating_point(wi), key="vectors/int_input", form=form, got=str(wi.dtype), **info)
+                        ctx.close("integer_vectors_vs_oracle", wi.double(), viref, vitol, key="vectors/int_input", form=form, **info)
+                    pi = rng.integers(0, 5, size=(4, D))
+                    piref = r1.points(pi.astype(np.float64), a, b, r_to)
+                    pitol = r1.tol(np.abs(pi).astype(np.float64), a, b, r_to, eps=eps, k=K)
+                    yi = g1.transform_points(torch.tensor(pi, dtype=torch.int64), ax[a], ax[b], to_grid=g_to, decimals=None)
+                    ctx.close("integer_points_vs_oracle", yi.double(), piref, pitol, key="points/int_input", **info)
+                    ctx.bucket("int_input")
             with ctx.guard("Grid.apply_transform(vectors)", **info):
                 w2 = g1.apply_transform(vt, ax[a], ax[b], to_grid=g_to, vectors=True, decimals=None)
                 ctx.close("apply_transform_vectors_vs_oracle", w2, vref, vtol, **info)
@@ -422,5 +438,41 @@ def case(ctx, i):
             ctx.close("cube_to_cube_vs_oracle", got, r1.points(cx, own, own2, r2), r1.tol(np.abs(cx), own, own2, r2, eps=eps, k=K), align_corners=ac)
             M = hom_np(cube.transform(), D)
             ctx.close("cube_default_transform", cx @ M[:, :D].T + M[:, D], wx, t_w, align_corners=ac)
+        # module-level spellings of the same maps, and the serialised form
+        from deepali.core import cube as CU
+
+        with ctx.guard("cube helpers", key="exc/cube_helpers"):
+            ctx.bucket("cube/helpers")
+            c1, c2 = g1.cube(), g2.cube()
+            own1 = CORNERS if p1["align_corners"] else CUBE
+            own2 = CORNERS if p2["align_corners"] else CUBE
+            cx = sample_in_axes(rng, r1, own1, (6,))
+            wx = r1.points(cx, own1, WORLD)
+            t_w = r1.tol(np.abs(cx), own1, WORLD, eps=eps, k=K)
+            want12 = r1.points(cx, own1, own2, r2)
+            t12 = r1.tol(np.abs(cx), own1, own2, r2, eps=eps, k=K)
+            ctx.close("cube_transform_points_fn", CU.cube_transform_points(torch.tensor(cx), c1, Axes.CUBE, c2, Axes.CUBE), want12, t12, key="cube/helpers")
+            M = hom_np(CU.cube_points_transform(c1, Axes.CUBE, c2, Axes.CUBE), D)
+            ctx.close("cube_points_transform_fn", cx @ M[:, :D].T + M[:, D], want12, t12, key="cube/helpers")
+            v = gen.f32(rng.normal(size=(5, D)))
+            wantv = r1.vectors(v, own1, own2, r2)
+            tv = r1.tol(np.abs(v), own1, own2, r2, eps=eps, k=K, vectors=True)
+            ctx.close("cube_transform_vectors_fn", CU.cube_transform_vectors(torch.tensor(v), c1, Axes.CUBE, c2, Axes.CUBE), wantv, tv, key="cube/helpers")
+            L_ = CU.cube_vectors_transform(c1, Axes.CUBE, c2, Axes.CUBE).double().numpy()
+            ctx.close("cube_vectors_transform_fn", v @ L_[:D, :D].T, wantv, tv, key="cube/helpers")
+            Mi = hom_np(c1.inverse_transform(), D)
+            t_c = r1.tol(np.abs(wx), WORLD, own1, eps=eps, k=K)
+            ctx.close("cube_inverse_transform_maps_world_to_cube", wx @ Mi[:, :D].T + Mi[:, D], cx, t_c + t_w @ np.abs(r1.matrix(WORLD, own1)[:D, :D]).T, key="cube/helpers")
+            Li = c1.inverse_transform(vectors=True).double().numpy()
+            ctx.close("cube_inverse_transform_vectors_is_linear_part", Li[:D, :D], Mi[:, :D], 1e-6 * (1 + np.abs(Mi).max()), key="cube/helpers")
+            back = type(c1).from_numpy(c1.numpy())
+            ctx.true("cube_numpy_roundtrip", back == c1, key="cube/helpers", got=repr(back), want=repr(c1))
+            back2 = type(c1).from_seq(c1.numpy().tolist())
+            ctx.true("cube_seq_roundtrip", back2 == c1, key="cube/helpers")
+            # the same attributes with the corner (origin) in place of the centre
+            seq_o = list(c1.numpy())
+            seq_o[D : 2 * D] = c1.origin().tolist()
+            back3 = type(c1).from_seq(seq_o, origin=True)
+            ctx.close("cube_from_seq_origin_route_center", back3.center(), c1.center().double().numpy(), 1e-5 * (1 + float(c1.center().abs().max()) + float(c1.extent().abs().max())), key="cube/helpers")
         # domain object agrees with grid.cube()/domain()
         ctx.true("grid_cube_eq_from_grid", g1.cube() == Cube.from_grid(g1) and g1.domain() == g1.cube())
